@@ -477,7 +477,7 @@ fn assumptions(prop: &str) -> Vec<String> {
 /// deterministic (a harness error, never a verdict about a property).
 pub fn determinism_proof(arg: &str) -> i32 {
     let per_prop: u64 = arg.parse().unwrap_or(40);
-    let props = ["C01", "C03", "C05", "C06", "C08", "C09", "C11", "C12", "C13", "C14", "C20", "C04"];
+    let props = ["C01", "C02", "C03", "C05", "C06", "C07", "C08", "C09", "C10", "C11", "C12", "C13", "C14", "C15", "C16", "C17", "C18", "C19", "C20", "C04"];
     let run = |prop: &str, block: u64, n: u64| -> String {
         let out = Command::new(exe()).arg("determinism").arg(prop).arg(n.to_string()).env("VERIF_SEED", block.to_string()).env("VERIF_MAX_IMAGES", "60").stderr(Stdio::null()).output();
         out.map(|o| String::from_utf8_lossy(&o.stdout).to_string()).unwrap_or_default()
